@@ -11,6 +11,7 @@
 import Jb.Proofs.Engine
 import Jb.Proofs.Gv
 import Jb.Model.Synth
+import Jb.Proofs.SynthBridge2
 
 set_option linter.unusedSectionVars false
 
@@ -87,5 +88,29 @@ theorem switch_is_outside_gv_off [FromFile K] (voices : List Hts.ParsedVoice) (v
         | ok mp => rw [hb] at h; simp only [Outcome.map] at h; cases h; rfl
         | err e => rw [hb] at h; simp [Outcome.map] at h
         | panic s => rw [hb] at h; simp [Outcome.map] at h
+
+/-! ### for the whole library (`Jb/Proofs/SynthBridge2.lean`) -/
+
+/-- **C12 from the voice files: a stream without GV is unaffected by its GV weight.** If the first voice's stream `j` has
+    `USE_GV = 0` (or there are no labels), appending `set_gv_weight(j, x)` to any history changes neither the trajectories nor
+    the waveform. -/
+theorem library_no_gv_ignores_weight {K : Type} [Field K] [LinearOrder K] [IsStrictOrderedRing K] [FloorRing K]
+    [Transc K] [Consts K] [MlpgConsts K] [FromFile K] (fx : Fix) (big : K)
+    (voices : List Hts.ParsedVoice) (iw : IW K) (ops : List (CondOp K)) (f : Condition K → Bool) (hf : Synth.SpeedOnly f)
+    (labels : List (List Char)) (times : List (K × K)) (j : Nat) (x : K)
+    (hno : labels = [] ∨ ∀ v0 s0, voices.head? = some v0 → v0.streams[j]? = some s0 → s0.info.useGv = false) :
+    Synth.params big voices iw (ops ++ [.gv j x]) f labels times = Synth.params big voices iw ops f labels times ∧
+    Synth.synthesize fx big voices iw (ops ++ [.gv j x]) f labels times = Synth.synthesize fx big voices iw ops f labels times :=
+  Synth.synthesize_gv_no_gv fx big voices iw ops f hf labels times j x hno
+
+/-- the GV switch the stages receive for stream `j` is "label outside the voice's GV-off contexts", once per state -/
+theorem library_gv_switch {K : Type} [Field K] [LinearOrder K] [IsStrictOrderedRing K] [FloorRing K]
+    [Transc K] [Consts K] [MlpgConsts K] [FromFile K] (big : K) (v0 : Hts.ParsedVoice) (vs : List Hts.ParsedVoice) (iw : IW K)
+    (labels : List (List Char)) (times : List (K × K)) (inp : EngineIn K)
+    (hin : Synth.engineIn big (v0 :: vs) iw labels times = .ok inp)
+    (j : Nat) (s : StreamIn K) (hs : inp.streams[j]? = some s) (g : List (MeanVari K)) (sw : List Bool)
+    (hg : s.gv = some (g, sw)) :
+    sw = (labels.map fun l => List.replicate v0.global.nstates (!(Hts.questionTest v0.global.gvOff l))).flatten :=
+  Synth.engineIn_gv_switch_eq big v0 vs iw labels times inp hin j s hs g sw hg
 
 end Jb.C12
